@@ -71,7 +71,7 @@ Lemma prepared_keys_master n dec p key : (n = 1 \/ n = 2 \/ n = 3)%nat -> length
   (p < length (tdea_passes (dir_of dec) (ks_tok n)))%nat ->
   prepared_keys dec p key = Some (map rks_of (firstn (S p) (tdea_passes (dir_of dec) (map des_key_schedule (chunks n 8 key))))).
 Proof.
-  intros Hn Hl Hp. unfold prepared_keys. rewrite Hl.
+  intros Hn Hl Hp. unfold prepared_keys, prepared_keys_with, key_schedules. rewrite Hl.
   destruct (key_selection_expected n dec p Hn Hp) as (E & _ & _). rewrite E.
   replace (8 * n / 8)%nat with n by (rewrite Nat.mul_comm, Nat.div_mul; lia).
   f_equal. rewrite sel_resolve. do 4 f_equal.
@@ -96,7 +96,7 @@ Lemma prepared_keys_expanded n dec p key : (n = 1 \/ n = 2 \/ n = 3)%nat -> leng
   (p < length (tdea_passes (dir_of dec) (ks_tok n)))%nat ->
   prepared_keys dec p key = Some (map rks_of (firstn (S p) (tdea_passes (dir_of dec) (map (chunks 16 8) (chunks n 128 key))))).
 Proof.
-  intros Hn Hl Hp. unfold prepared_keys. rewrite Hl.
+  intros Hn Hl Hp. unfold prepared_keys, prepared_keys_with. rewrite Hl.
   destruct (key_selection_expected n dec p Hn Hp) as (_ & E1 & E2). rewrite E1, E2.
   f_equal. rewrite sel_resolve. do 4 f_equal.
   unfold ks_tok. rewrite map_map.
@@ -164,7 +164,7 @@ Lemma cipher_on_schedules dec p r s key block (ks : list (list (list N))) :
   (r <= 15)%nat -> (s <= 9)%nat -> okl 8 256 block ->
   des_cipher dec p r s key block = Some (tdea_state_at (dir_of dec) ks block p r s).
 Proof.
-  intros Hk Hg Hp Hr Hs Hb. unfold des_cipher. rewrite Hk.
+  intros Hk Hg Hp Hr Hs Hb. unfold des_cipher, des_cipher_with. fold (prepared_keys dec p key). rewrite Hk.
   assert (Hp3 : (p < 3)%nat).
   { rewrite tdea_passes_length in Hp. destruct (length ks) as [|[|[|[|]]]]; lia. }
   rewrite iterations_table_expected by lia. f_equal.
